@@ -29,7 +29,6 @@ open Jaqal Jaqal.Builder Jaqal.RunModel
 def InT : Val → Bool
   | .int _ => true
   | .flt _ => true
-  | .none => true
   | .const _ (.int _) => true
   | .const _ (.flt _) => true
   | .param _ _ => true
@@ -51,7 +50,6 @@ def RegL : Val → Bool
 def OutT : Val → Bool
   | .int _ => true
   | .flt _ => true
-  | .none => true
   | .param _ _ => true
   | .qubit _ src idx => (RegL src || isParam src) && (isIntL idx || isParam idx)
   | v => RegL v
@@ -240,7 +238,7 @@ theorem letVal_typed {ov : List (String × Num)} {rv : Bool} : ∀ (v : Val), In
     Cls Good (letVal ov rv v) ∧ ∀ w, letVal ov rv v = .ok w → OutT w = true
   | .int _, _ => ⟨Cls.pure _, fun w hw => by cases hw; rfl⟩
   | .flt _, _ => ⟨Cls.pure _, fun w hw => by cases hw; rfl⟩
-  | .none, _ => ⟨Cls.pure _, fun w hw => by cases hw; rfl⟩
+  | .none, h => by simp [InT, RegT] at h
   | .str _, h => by simp [InT, RegT] at h
   | .param _ _, _ => ⟨Cls.pure _, fun w hw => by cases hw; rfl⟩
   | .const n x, h => by
@@ -345,12 +343,22 @@ theorem letVal_typed {ov : List (String × Num)} {rv : Bool} : ∀ (v : Val), In
 
 /-! ### Statements, macros, the circuit -/
 
+/-- a loop count or an iteration count as `_validate_count` lets it through: an int, an integer let constant, a parameter -/
+def CntIn (v : Val) : Bool := isIntC v || isParam v
+
+theorem CntIn_InT {v : Val} (h : CntIn v = true) : InT v = true := by
+  cases v with
+  | const n x => cases x <;> simp [CntIn, isIntC, isParam] at h <;> rfl
+  | int _ => rfl
+  | param _ _ => rfl
+  | _ => simp [CntIn, isIntC, isParam] at h
+
 mutual
-  /-- every gate argument and every count is typed -/
+  /-- every gate argument is typed and every count is an int, an integer constant or a parameter -/
   def StmtIn : Stmt → Prop
     | .gate _ _ args => ∀ a ∈ args, InT a.2 = true
-    | .block _ _ it body => InT it = true ∧ StmtsIn body
-    | .loop c b => InT c = true ∧ StmtIn b
+    | .block _ _ it body => CntIn it = true ∧ StmtsIn body
+    | .loop c b => CntIn c = true ∧ StmtIn b
   def StmtsIn : List Stmt → Prop
     | [] => True
     | s :: r => StmtIn s ∧ StmtsIn r
@@ -362,6 +370,7 @@ structure TypedC (c : Circuit) : Prop where
   macros : ∀ m ∈ c.macros, StmtIn m.body
   registers : ∀ v ∈ c.registers, InT v = true
   constants : ∀ v ∈ c.constants, isConst v = true
+  regLike : ∀ v ∈ c.registers, isRegLike v = true
 
 theorem visitArgs_class {ov : List (String × Num)} : ∀ (args : List (String × Val)), (∀ a ∈ args, InT a.2 = true) →
     Cls Good (visitArgs (letVal ov false) args)
@@ -382,12 +391,12 @@ mutual
       simp only [visitStmt]
       refine Cls.bind (letStmts_class body h.2) (fun ss _ => ?_)
       cases sub with
-      | true => simp only [if_true]; exact Cls.bind (letVal_typed it h.1).1 (fun _ _ => Cls.pure _)
+      | true => simp only [if_true]; exact Cls.bind (letVal_typed it (CntIn_InT h.1)).1 (fun _ _ => Cls.pure _)
       | false => simp only [Bool.false_eq_true, if_false]; exact Cls.pure _
     | .loop c b, h => by
       simp only [StmtIn] at h
       simp only [visitStmt]
-      exact Cls.bind (letVal_typed c h.1).1 (fun _ _ => Cls.bind (letStmt_class b h.2) (fun _ _ => Cls.pure _))
+      exact Cls.bind (letVal_typed c (CntIn_InT h.1)).1 (fun _ _ => Cls.bind (letStmt_class b h.2) (fun _ _ => Cls.pure _))
   theorem letStmts_class {ov : List (String × Num)} : ∀ (l : List Stmt), StmtsIn l →
       Cls Good (visitStmts (letVal ov false) (letVal ov false) l)
     | [], _ => Cls.pure _
